@@ -7,7 +7,7 @@
 From Coq Require Import ZArith List Bool Lia.
 Import ListNotations.
 Require Import SV.Common SV.C11.Base SV.C11.Utf8 SV.C11.Gen_events SV.C11.Envelope SV.C11.Tick SV.C11.Notify.
-Require Import SV.C11.Utf8Proofs SV.C11.EnvelopeProofs SV.C11.TickProofs SV.C11.NotifyProofs.
+Require Import SV.C11.Routing SV.C11.Utf8Proofs SV.C11.EnvelopeProofs SV.C11.TickProofs SV.C11.NotifyProofs SV.C11.RoutingProofs.
 Open Scope Z_scope.
 
 (* ---------------------------------------------------------------- header *)
@@ -279,3 +279,13 @@ Theorem c11_remote_one_to_one : forall ty data,
   payload RemoteCommunicationEvent (ARemote ty data) = Some (payload_remote ty data).
 Proof. exact remote_one_to_one. Qed.
 Print Assumptions c11_remote_one_to_one.
+
+(* ---------------------------------------------------------------- one envelope per event per pool *)
+
+(* for every list of configured event types (any order, repetitions, types mixed
+   with their supertypes) and every event class: the pool's callback runs exactly
+   once when the event is an instance of a configured type, never otherwise *)
+Theorem c11_one_delivery_per_pool : forall pe c,
+  deliveries pe c = if existsb (fun t => descends c t) pe then 1 else 0.
+Proof. exact one_delivery_per_pool. Qed.
+Print Assumptions c11_one_delivery_per_pool.
